@@ -588,22 +588,31 @@ size_t varintBitmapEncode(const varintBitmap *vb, uint8_t *buffer) {
 }
 
 varintBitmap *varintBitmapDecode(const uint8_t *buffer, size_t len) {
-    (void)len; /* Unused, but kept for API consistency */
+    /* Header: container type byte + 32-bit cardinality */
+    if (len < 1 + sizeof(uint32_t)) {
+        return NULL; /* Truncated input */
+    }
+    const uint8_t *end = buffer + len;
 
     varintBitmap *vb = malloc(sizeof(varintBitmap));
     if (!vb) {
         return NULL; /* Out of memory */
     }
 
-    /* Read type */
     vb->type = (varintBitmapContainerType)*buffer++;
-
-    /* Read cardinality */
     memcpy(&vb->cardinality, buffer, sizeof(uint32_t));
     buffer += sizeof(uint32_t);
 
+    /* Every container is validated against 'len' before anything is
+     * allocated or copied, so corrupt or truncated input is rejected instead
+     * of being read past its end or driving a huge allocation. */
     switch (vb->type) {
     case VARINT_BITMAP_ARRAY:
+        if (vb->cardinality > VARINT_BITMAP_MAX_VALUE ||
+            (size_t)(end - buffer) < vb->cardinality * sizeof(uint16_t)) {
+            free(vb);
+            return NULL; /* Corrupt or truncated input */
+        }
         vb->container.array.capacity = vb->cardinality;
         vb->container.array.values = malloc(vb->cardinality * sizeof(uint16_t));
         if (!vb->container.array.values) {
@@ -615,6 +624,11 @@ varintBitmap *varintBitmapDecode(const uint8_t *buffer, size_t len) {
         break;
 
     case VARINT_BITMAP_BITMAP:
+        if (vb->cardinality > VARINT_BITMAP_MAX_VALUE ||
+            (size_t)(end - buffer) < VARINT_BITMAP_BITMAP_SIZE) {
+            free(vb);
+            return NULL; /* Corrupt or truncated input */
+        }
         vb->container.bitmap.bits = malloc(VARINT_BITMAP_BITMAP_SIZE);
         if (!vb->container.bitmap.bits) {
             free(vb);
@@ -624,8 +638,19 @@ varintBitmap *varintBitmapDecode(const uint8_t *buffer, size_t len) {
         break;
 
     case VARINT_BITMAP_RUNS:
+        if ((size_t)(end - buffer) < sizeof(uint32_t)) {
+            free(vb);
+            return NULL; /* Truncated input */
+        }
         memcpy(&vb->container.runs.numRuns, buffer, sizeof(uint32_t));
         buffer += sizeof(uint32_t);
+        if (vb->cardinality > VARINT_BITMAP_MAX_VALUE ||
+            vb->container.runs.numRuns > VARINT_BITMAP_MAX_VALUE ||
+            (size_t)(end - buffer) <
+                vb->container.runs.numRuns * 2 * sizeof(uint16_t)) {
+            free(vb);
+            return NULL; /* Corrupt or truncated input */
+        }
         vb->container.runs.capacity = vb->container.runs.numRuns;
         vb->container.runs.runs =
             malloc(vb->container.runs.numRuns * 2 * sizeof(uint16_t));
@@ -636,6 +661,10 @@ varintBitmap *varintBitmapDecode(const uint8_t *buffer, size_t len) {
         memcpy(vb->container.runs.runs, buffer,
                vb->container.runs.numRuns * 2 * sizeof(uint16_t));
         break;
+
+    default:
+        free(vb);
+        return NULL; /* Unknown container type */
     }
 
     return vb;
